@@ -6,6 +6,7 @@ import (
 	"fmt"
 	"os"
 	"reflect"
+	"runtime"
 	"sort"
 	"strconv"
 
@@ -263,6 +264,59 @@ var units = []struct {
 		w := reflect.ValueOf(y)
 		u := w.Type()
 		p("plain: offsets ordered=" + b2s(u.Field(1).Offset >= u.Field(0).Offset+u.Field(0).Type.Size()) + " Z=" + fmt.Sprint(w.Field(2).Int()) + " PNil=" + b2s(w.Field(1).IsNil()))
+	}},
+	{"derived-gc", func() {
+		// strings of types constructed at run time must survive garbage collections
+		base := reflect.TypeOf(int16(0))
+		var ts []reflect.Type
+		var want []string
+		for i := 0; i < 200; i++ {
+			a := reflect.ArrayOf(i, base)
+			ts = append(ts, a, reflect.ChanOf(reflect.RecvDir, a), reflect.SliceOf(a), reflect.PointerTo(a), reflect.MapOf(base, a),
+				reflect.FuncOf([]reflect.Type{a}, nil, false))
+			n := strconv.Itoa(i)
+			want = append(want, "["+n+"]int16", "<-chan ["+n+"]int16", "[]["+n+"]int16", "*["+n+"]int16", "map[int16]["+n+"]int16", "func(["+n+"]int16)")
+		}
+		var junk [][]byte
+		for r := 0; r < 20; r++ {
+			for i := 0; i < 2000; i++ {
+				junk = append(junk, make([]byte, 8+i%64))
+			}
+			junk = junk[:0]
+			runtime.GC()
+		}
+		bad := map[string]int{}
+		for i, t := range ts {
+			if t.String() != want[i] {
+				bad[[]string{"ArrayOf", "ChanOf", "SliceOf", "PointerTo", "MapOf", "FuncOf"}[i%6]]++
+			}
+		}
+		p("corrupted type strings after GC: " + fmt.Sprint(bad))
+		again := reflect.ChanOf(reflect.RecvDir, reflect.ArrayOf(7, base))
+		p("cached ChanOf: " + again.String())
+	}},
+	{"call-ret-overflow", func() {
+		// results larger than 16 bytes must live in their own buffer: they have to survive later allocations
+		meth := reflect.ValueOf(q.Ret3{A: 1}).MethodByName("Three")
+		bad := 0
+		var keep []*[2]uint64
+		for i := 0; i < 200; i++ {
+			out := meth.Call(nil)
+			for j := 0; j < 32; j++ {
+				c := new([2]uint64)
+				c[0], c[1] = 0xA5A5A5A5A5A5A5A5, 0x5A5A5A5A5A5A5A5A
+				keep = append(keep, c)
+			}
+			if out[0].Int() != 1 || out[1].Len() != 26 || out[2].Int() != 7 {
+				bad++
+			}
+		}
+		for _, c := range keep {
+			if c[0] != 0xA5A5A5A5A5A5A5A5 || c[1] != 0x5A5A5A5A5A5A5A5A {
+				bad++
+			}
+		}
+		p("unstable results or clobbered neighbours: " + strconv.Itoa(bad))
 	}},
 	{"chanparen", func() {
 		p(reflect.TypeOf((chan (<-chan int))(nil)).String())
